@@ -33,6 +33,9 @@ func (l *Lexer) NewTokenAt(tokenType token.Type, literal string, startLine, star
 
 func baseNextToken(l *Lexer) token.Token {
 	var tok token.Token
+	// Capture the position of the token's first character, so that
+	// two-character operators start where they begin, not on their second character
+	start := token.Position{Line: l.Line, Column: l.Column}
 
 	switch l.CurrentChar {
 	case '=':
@@ -166,6 +169,7 @@ func baseNextToken(l *Lexer) token.Token {
 		}
 	}
 
+	tok.Start = start
 	l.ReadChar()
 	return tok
 }
